@@ -1299,3 +1299,8 @@ def be_Uint32(ex, st, args, ctx):
 
 
 BASE.update({'(encoding/binary.bigEndian).PutUint32': be_PutUint32, '(encoding/binary.bigEndian).Uint32': be_Uint32})
+
+
+BASE.update({'(*sync.Mutex).Lock': lambda ex, st, a, c: None, '(*sync.Mutex).Unlock': lambda ex, st, a, c: None,
+             '(*sync.RWMutex).Lock': lambda ex, st, a, c: None, '(*sync.RWMutex).Unlock': lambda ex, st, a, c: None,
+             '(*sync.RWMutex).RLock': lambda ex, st, a, c: None, '(*sync.RWMutex).RUnlock': lambda ex, st, a, c: None})
